@@ -427,7 +427,7 @@ func ruleNumCombo(p *Prog, r *Result) {
 						return aval{}, false
 					}
 					as.typeTest = func(f *ssa.Function, ta *ssa.TypeAssert, bound map[*ssa.Parameter]string) (abool, bool) {
-						pa, ok := ta.X.(*ssa.Parameter)
+						pa, ok := stripConv(ta.X).(*ssa.Parameter)
 						if !ok || bound[pa] == "" {
 							return abBoth, false
 						}
@@ -441,7 +441,7 @@ func ruleNumCombo(p *Prog, r *Result) {
 						return abFalse, true
 					}
 					as.bind = func(f *ssa.Function, arg ssa.Value, bound map[*ssa.Parameter]string) string {
-						if pa, ok := arg.(*ssa.Parameter); ok {
+						if pa, ok := stripConv(arg).(*ssa.Parameter); ok {
 							return bound[pa]
 						}
 						return ""
@@ -2214,4 +2214,75 @@ func ruleAggrDetect(p *Prog, r *Result) {
 		r.add(bad == "", fmt.Sprintf("(*Optimizer).buildFinalPlan|found#%d", n), p.InstrPos(f), firstNonEmpty(bad, "once an aggregate call was found the statement cannot be planned as a plain projection"))
 	}
 	r.floor("aggregate detection tests in buildFinalPlan", n, 1)
+}
+
+// ---------------- CMPMIXED ----------------
+
+func init() {
+	register("CMPMIXED", "ORDER BY orders numbers, whatever their representation: the comparator entry of the sort (the method that receives the field's static type and two cells) is evaluated abstractly with the type Number and each assignment of {int64, float64} to the two cells; no reachable return yields the constant `equal` - every outcome comes from a comparison helper (a column can mix integer and float cells: aggregates are integers for all-integer groups)", ruleCmpMixed)
+}
+
+func ruleCmpMixed(p *Prog, r *Result) {
+	tnum, ok := p.constOf("TNUMBER")
+	if !ok {
+		r.undecided("anchor: TNUMBER not found")
+		return
+	}
+	// the entry: a method with a Type parameter and two parameters of one interface type, returning int
+	var fn *ssa.Function
+	for _, f := range p.Funcs {
+		if f.Signature.Recv() == nil || typeName(deref(f.Signature.Recv().Type())) != "orderColumnsRow" || len(f.Params) < 4 {
+			continue
+		}
+		if typeName(f.Params[1].Type()) == "Type" {
+			fn = f
+		}
+	}
+	if fn == nil {
+		r.undecided("anchor: the comparator entry (Type, cell, cell) of orderColumnsRow was not found")
+		return
+	}
+	tpParam, lp, rp := fn.Params[1], fn.Params[2], fn.Params[3]
+	for _, lk := range []string{"int", "float"} {
+		for _, rk := range []string{"int", "float"} {
+			as := &assumption{p: p}
+			as.leaf = func(f *ssa.Function, v ssa.Value, bound map[*ssa.Parameter]string) (aval, bool) {
+				if f == fn && v == ssa.Value(tpParam) {
+					return aval{kind: 1, i: tnum}, true
+				}
+				return aval{}, false
+			}
+			as.typeTest = func(f *ssa.Function, ta *ssa.TypeAssert, bound map[*ssa.Parameter]string) (abool, bool) {
+				pa, ok := stripConv(ta.X).(*ssa.Parameter)
+				if !ok || bound[pa] == "" {
+					return abBoth, false
+				}
+				bt, isB := ta.AssertedType.(*types.Basic)
+				if !isB {
+					return abFalse, true
+				}
+				if (bound[pa] == "int" && bt.Kind() == types.Int64) || (bound[pa] == "float" && bt.Kind() == types.Float64) {
+					return abTrue, true
+				}
+				return abFalse, true
+			}
+			as.bind = func(f *ssa.Function, arg ssa.Value, bound map[*ssa.Parameter]string) string {
+				if pa, ok := stripConv(arg).(*ssa.Parameter); ok {
+					return bound[pa]
+				}
+				return ""
+			}
+			res := as.run(fn, map[*ssa.Parameter]string{lp: lk, rp: rk})
+			bad := ""
+			for _, ret := range res.rets {
+				if len(ret.Results) != 1 {
+					continue
+				}
+				if c, ok := constInt(retVal(ret, 0)); ok && c == 0 {
+					bad = "the constant 0 (`equal`) is returned at " + p.InstrPos(ret)
+				}
+			}
+			r.add(bad == "", fmt.Sprintf("%s|left=%s,right=%s", p.FName(fn), lk, rk), p.Pos(fn.Pos()), firstNonEmpty(bad, "the outcome comes from a comparison helper"))
+		}
+	}
 }
